@@ -1572,6 +1572,8 @@ class Interp:
         return self.getattr(base, n.attr, st, fi, n)
 
     def getattr(self, base, attr, st, fi, node=None):
+        if isinstance(base, SliceV) and attr in ("start", "stop", "step"):
+            return {"start": base.lo, "stop": base.hi, "step": base.step}[attr]
         if isinstance(base, ObjV):
             if attr in base.fields:
                 return base.fields[attr]
@@ -2102,7 +2104,7 @@ class Interp:
                     # a module-level alias of a callable: _log10 = np.log10, _pow10 = partial(operator.pow, 10), TABLE-free lambdas
                     gvv = self._global_value(name, fi)
                     ga = gvv.single_atom() if isinstance(gvv, Form) else None
-                    if isinstance(gvv, (FuncV, ClassRef)) or (ga is not None and ((ga[0] == "c" and ga[1] != name) or (ga[0] == "fn" and ga[1] in ("functools.partial", "operator.itemgetter")))):
+                    if isinstance(gvv, (FuncV, ClassRef)) or (ga is not None and ((ga[0] == "c" and ga[1] != name) or (ga[0] == "fn" and ga[1] in ("functools.partial", "operator.itemgetter", "operator.attrgetter")))):
                         return self._call_value(gvv, args, kwargs, st, fi, depth, n, rec)
             if m is not None and len(parts) == 4 and parts[2] in m.classes:
                 # Class.method(obj, ...): the plain function, nothing bound
@@ -2132,6 +2134,8 @@ class Interp:
                     return VecV(v.items)
                 return mk_fn("array", [v])
             return v
+        if name == "numpy.flatnonzero" and len(args) == 1 and not kwargs:
+            return mk_idx(mk_fn("where", [as_value(args[0])]), Form.num(0))       # flatnonzero(c) is where(c)[0] for the 1-D arrays it is applied to
         if name == "functools.reduce" and 2 <= len(args) <= 3 and not kwargs and isinstance(args[1], TupleV) and (args[1].items or len(args) == 3):
             items = list(args[1].items)
             acc = args[2] if len(args) == 3 else items.pop(0)
@@ -2197,6 +2201,14 @@ class Interp:
                 return self._call_value(a[2][0], list(a[2][1:]) + list(args), kw, st, fi, depth, n, rec)
             if a is not None and a[0] == "fn" and a[1] == "operator.itemgetter" and len(a[2]) == 1 and len(args) == 1 and not kwargs:
                 return self._dispatch_call(n, "operator.getitem", [args[0], a[2][0]], {}, st, fi, depth, rec)
+            if a is not None and a[0] == "fn" and a[1] == "operator.itemgetter" and len(a[2]) > 1 and len(args) == 1 and not kwargs:
+                return TupleV([self._dispatch_call(n, "operator.getitem", [args[0], k_], {}, st, fi, depth, rec) for k_ in a[2]], "tuple")
+            if a is not None and a[0] == "fn" and a[1] == "operator.attrgetter" and a[2] and len(args) == 1 and not kwargs \
+                    and all(isinstance(k_, Const) and isinstance(k_.v, str) and "." not in k_.v for k_ in a[2]):
+                got = [self.getattr(args[0], k_.v, st, fi, n) for k_ in a[2]]
+                return got[0] if len(got) == 1 else TupleV(got, "tuple")
+            if a is not None and a[0] == "attr" and isinstance(a[1], (DictV, TupleV)) and isinstance(a[2], str):
+                return self._method_call(a[1], a[2], args, kwargs, st, fi, depth, n, rec)       # a bound method held as a value: d.get
             s = fv.sym_name()
             if s is not None and self.param_classes.get(s) in SIGNAL_CLASSES:
                 return Form.atom(("meth", fv, "__call__", tuple(map(as_value, args)), tuple(sorted((k, as_value(v)) for k, v in kwargs.items()))))
@@ -2611,7 +2623,7 @@ def _literal_like(g, resolve=None):
             nm = f.attr if isinstance(f, ast.Attribute) else (f.id if isinstance(f, ast.Name) else "")
             if nm not in ("log", "log2", "log10", "sqrt", "exp", "float", "int", "tuple", "frozenset", "dict", "list", "set", "compile"):
                 dotted = resolve(f) if resolve is not None else None
-                if dotted not in ("functools.partial", "operator.itemgetter"):       # module-level aliases: _pow10 = partial(operator.pow, 10)
+                if dotted not in ("functools.partial", "operator.itemgetter", "operator.attrgetter"):       # module-level aliases: _pow10 = partial(operator.pow, 10)
                     return False
         elif isinstance(n, (ast.Await, ast.Yield, ast.YieldFrom, ast.NamedExpr, ast.ListComp, ast.DictComp, ast.SetComp, ast.GeneratorExp)):
             return False
@@ -2818,6 +2830,8 @@ def iter_element(it):
         a = it.single_atom()
         if a is not None and a[0] == "fn" and a[1] == "zip":
             return TupleV([iter_element(x) for x in a[2]])
+        if a is not None and a[0] == "fn" and a[1] == "listcomp" and len(a[2]) == 2:
+            return a[2][0]       # [body(x) for x in seq]: the body was evaluated on the element of seq
         if a is None and len(it.terms) == 1:
             # an element of  c * s1 * ... * X  (scalars times one sequence) is  c * s1 * ... * element(X)
             (mono, coef), = it.terms.items()
